@@ -117,6 +117,75 @@ fn c18(seed: u64) -> i32 {
     }
 }
 
+/// One tiny value of every structure family, each queried by three real threads: so that a data race in any of
+/// them is in reach of every interpreter seed.
+fn c18all(seed: u64) -> i32 {
+    use crate::ds::{Alias, Flat, Path, Ty};
+    let mut rng = stream(run_seed(seed, "C18-miri-all", 0), "workload");
+    let n = 36 + rng.usize_below(16);
+    let syms: Vec<u128> = (0..n).map(|i| ((i * 7 + rng.usize_below(3)) % 9) as u128).collect();
+    let bits: String = (0..(120 + rng.usize_below(40))).map(|_| if rng.below(3) == 0 { '1' } else { '0' }).collect();
+    let quads: Vec<u8> = (0..(120 + rng.usize_below(40))).map(|_| rng.below(4) as u8).collect();
+    let tys = [Ty::U8, Ty::U16, Ty::U32, Ty::U64, Ty::Usize, Ty::U128];
+    let mut specs: Vec<Spec> = vec![];
+    for (k, alias) in crate::ds::ALL_TREES.iter().enumerate() {
+        specs.push(Spec::Tree {
+            alias: *alias,
+            ty: tys[(k + seed as usize) % tys.len()],
+            path: Path::FromVec,
+            seq: Seq::Explicit(syms.iter().map(|&s| Sym(s)).collect()),
+            orders: (rng.next_u64(), rng.next_u64()),
+        });
+    }
+    for kind in [Flat::BitVector, Flat::RSNarrow, Flat::RSWide, Flat::DArray, Flat::DArray0] {
+        specs.push(Spec::Bits { kind, bits: bits.clone() });
+    }
+    for kind in [Flat::QVector, Flat::RSQVector256, Flat::RSQVector512] {
+        specs.push(Spec::Quads { kind, syms: quads.clone() });
+    }
+    let _ = Alias::WT;
+    let mut bad = 0;
+    for spec in &specs {
+        let x = match crate::core::catch(|| spec.build()) {
+            Ok(x) => x,
+            Err(_) => continue,
+        };
+        let qs = gen_queries(spec, &mut rng, 7);
+        let batch: Vec<(Q, A)> = qs
+            .into_iter()
+            .map(|q| {
+                let a = crate::core::catch(|| x.answer(&q)).unwrap_or_else(A::Panic);
+                (q, a)
+            })
+            .filter(|(_, a)| !matches!(a, A::Panic(_)))
+            .collect();
+        let ok = std::sync::atomic::AtomicBool::new(true);
+        let n = batch.len();
+        std::thread::scope(|s| {
+            for j in 0..3usize {
+                let x = &x;
+                let batch = &batch;
+                let ok = &ok;
+                s.spawn(move || {
+                    for k in 0..n {
+                        let (q, e) = &batch[(j * 3 + k) % n];
+                        let got = x.answer(q);
+                        if &got != e {
+                            println!("C18-MISMATCH {} thread {j} query {q:?} answered {got:?}, a single thread gets {e:?}", x.kind());
+                            ok.store(false, std::sync::atomic::Ordering::SeqCst);
+                        }
+                    }
+                });
+            }
+        });
+        if !ok.load(std::sync::atomic::Ordering::SeqCst) {
+            bad += 1;
+        }
+    }
+    println!("c18all scenario seed={seed} structures={} mismatching={bad}", specs.len());
+    (bad > 0) as i32
+}
+
 fn trees_real(prop: &str, seed: u64) -> i32 {
     let rs = run_seed(seed, &format!("{prop}-miri"), 0);
     let mut case = trees::gen_case(prop, rs, Tier::Quick);
@@ -177,6 +246,7 @@ fn main() {
     let seed: u64 = args[1].parse().expect("seed");
     let code = match args[0].as_str() {
         "c18" => c18(seed),
+        "c18all" => c18all(seed),
         "c02" => trees_real("C02", seed),
         "c03" => trees_real("C03", seed),
         "c09" => c09(seed),
